@@ -5,7 +5,7 @@ import networkx as nx
 from . import mol as M
 
 
-def gen_stereo_molecule(rng, n_db=None, n_chiral=None, max_extra=6, p_ring=0.0, p_tail=0.0, p_unsat=0.0):
+def gen_stereo_molecule(rng, n_db=None, n_chiral=None, max_extra=6, p_ring=0.0, p_tail=0.0, p_unsat=0.0, p_hlig=0.0):
     """tree-shaped molecule; -> (g, stereo) with stereo = [dict(a1,a2,l1,l2,kind)], chiral = {atom: 'R'|'S'}"""
     n_db = n_db if n_db is not None else rng.randint(1, 3)
     n_chiral = n_chiral if n_chiral is not None else rng.choice([0, 0, 1, 2])
@@ -31,7 +31,8 @@ def gen_stereo_molecule(rng, n_db=None, n_chiral=None, max_extra=6, p_ring=0.0, 
         else:
             a1 = add('C', l1)
         a2 = add('C', a1, order=2)
-        l2 = add(rng.choice(['C', 'F', 'Cl', 'Br', 'C', 'N']), a2)
+        # (p_hlig: the marked substituent is a hydrogen written out as [H], e.g. CC(/[H])=C/F)
+        l2 = add('H' if (p_hlig and rng.random() < p_hlig) else rng.choice(['C', 'F', 'Cl', 'Br', 'C', 'N']), a2)
         kind = rng.choice(['cis', 'trans'])
         stereo.append(dict(a1=a1, a2=a2, l1=l1, l2=l2, kind=kind))
         # continuation: from a2 (second substituent) or from l2 if it can continue
